@@ -370,6 +370,12 @@ func c11Projects(rng *rand.Rand) []project {
 		{Root: "{ // {additionalProperties: \"@ap\"}\n \"" + k1 + "\": " + n() + "\n}",
 			Types: []typeDef{{Name: "@ap", Text: `"s" // {maxLength: 9}`}}},
 		{Root: n() + " // {type: \"@num\"}", Types: []typeDef{{Name: "@num", Text: "1 // {min: 0}"}}},
+		// every spelling the format types accept (uuid: plain, urn:uuid:, braces, 32 hex digits; mixed case), several per
+		// schema and differing between cases
+		{Root: "{\n \"a\": \"urn:uuid:abcdef01-2345-6789-abcd-ef0123456" + n()[:1] + "89\", // {type: \"uuid\"}\n \"b\": \"URN:UUID:ABCDEF01-2345-6789-ABCD-EF0123456789\", // {type: \"uuid\"}\n \"c\": \"{abcdef01-2345-6789-abcd-ef0123456789}\", // {type: \"uuid\"}\n \"d\": \"abcdef0123456789abcdef0123456" + n()[:1] + "89\", // {type: \"uuid\"}\n \"e\": \"abcdef01-2345-6789-abcd-ef0123456789\" // {type: \"uuid\"}\n}"},
+		{Root: "\"urn:uuid:abcdef01-2345-6789-abcd-ef012345" + n()[:1] + "789\" // {type: \"uuid\"}"},
+		{Root: "\"urx:uuid:abcdef01-2345-6789-abcd-ef012345" + n()[:1] + "789\" // {type: \"uuid\"}"},
+		{Root: "{\n \"d\": \"2021-0" + n()[:1] + "-02\", // {type: \"date\"}\n \"t\": \"2021-01-02T07:23:1" + n()[:1] + "+03:00\", // {type: \"datetime\"}\n \"m\": \"" + w() + "@example.com\", // {type: \"email\"}\n \"u\": \"https://example.com/" + w() + "?q=" + n() + "\" // {type: \"uri\"}\n}"},
 		// long rule values (expressions of 32+ bytes, several per schema, differing from case to case): anything the
 		// library remembers across schemas for the sake of speed shows between goroutines
 		{Root: "{\n \"when\": \"2021-0" + n()[:1] + "-02T07:23:12+03:00\", // {regex: \"^\\\\d{4}-0" + n()[:1] + "-\\\\d{2}T\\\\d{2}:\\\\d{2}:\\\\d{2}[+-]\\\\d{2}:\\\\d{2}$\"}\n \"id\": \"abcdef01-2345-6789-abcd-ef0123456789\" // {regex: \"^[0-9a-f]{8}-[0-9a-f]{4}-[0-9a-f]{4}-[0-9a-f]{4}-[0-9a-f]{12}$\"}\n}"},
